@@ -1,6 +1,7 @@
 use super::{
     error::Error,
     find_crlf,
+    parse_unsigned,
     CRLF,
 };
 use rhymessage::MessageHeaders;
@@ -397,8 +398,7 @@ impl Request {
                 if let Some(content_length) =
                     self.headers.header_value("Content-Length")
                 {
-                    let content_length = content_length
-                        .parse::<usize>()
+                    let content_length = parse_unsigned(&content_length, 10)
                         .map_err(Error::InvalidContentLength)?;
                     self.count_bytes(content_length)?;
                     self.body.reserve(content_length);
